@@ -183,12 +183,16 @@ def saveto (decl : Bool) (root : Str) : List (Str × Bool) → List Cells → Op
 def entitiesNs : Str × Str := (S "entities", S "http://www.opendatakit.org/xforms/entities")
 def versionAttr : String := "entities:entities-version"
 
-/-- what the XForm must contain (`some`) or that the form must be rejected (`none`) -/
-def form (root : Str) (sub : Str → Str) (version : String) (entities : List Cells) (survey : List Cells) : Option Out :=
+/-- what the XForm must contain (`some`) or that the form must be rejected (`none`).
+    `userNs`: what the settings `namespaces` cell itself declares for the prefix `entities` (settings are
+    C11's; normally nothing).  With an entity the entities namespace is declared whatever the user wrote;
+    without one only the user's own declaration, if any, is there. -/
+def form (root : Str) (sub : Str → Str) (version : String) (userNs : Option (Str × Str))
+    (entities : List Cells) (survey : List Cells) : Option Out :=
   match entities with
   | [] =>
     (saveto false root [] survey).map fun sv =>
-      { entity := none, nodes := [], saveto := sv, version := none, xmlns := none }
+      { entity := none, nodes := [], saveto := sv, version := none, xmlns := userNs }
   | [row] =>
     match entityRow (Form.xpathStr [root, S "meta", S "entity"]) sub row with
     | none => none
